@@ -23,5 +23,8 @@ def make_jobs(ctx):
     for (name, m, script, hk) in F.calls_family(ctx.seed, ctx.quick):
         wasmvalid.validate(m)
         jobs.append(e2_job(ctx, name, m, script, backends=['sat', 'kissat'], unwind=8, harness_kw=hk,
-                           extra_flags=['--unwindset', 'streq.0:26']))
+                           extra_flags=['--unwindset', 'streq.0:26'],
+                           # calls through function pointers: the solver's witness input is also run natively (argument passing
+                           # through an incompatible pointer type is undefined in C and invisible to the solver's model)
+                           validate_witness=name.startswith('indirect_')))
     return jobs
